@@ -391,9 +391,8 @@ pub fn decode_all(j: &Value, st: &mut Stats) {
 
 pub fn decode_pool(tier: Tier) -> Vec<Value> {
     let mut v = crate::enumr::pool_full();
-    if tier == Tier::Thorough {
-        v.extend(crate::enumr::docs_d22_reduced());
-    }
+    let _ = tier;
+    v.extend(crate::enumr::docs_d22_reduced());
     // each type's own images and near misses
     let own = vec![
         json!({"a": 1, "b": "x"}), json!({"a": 1, "b": null}), json!({"a": 1}), json!({"a": 1, "b": "x", "c": 0}), json!({"a": "1"}),
